@@ -78,7 +78,7 @@ class ExprMixin:
         if name in mod.consts:
             return self.ev_const_expr(mod, mod.consts[name])
         if name in ("range", "len", "min", "max", "abs", "int", "float", "bool", "divmod", "round", "sum",
-                    "isinstance", "enumerate", "zip", "getattr", "bytearray", "memoryview", "str", "list",
+                    "isinstance", "callable", "enumerate", "zip", "getattr", "bytearray", "memoryview", "str", "list",
                     "tuple", "print", "type", "prange", "set", "dict", "any", "all", "super"):
             return VFunc("builtin", name)
         if name in ("ValueError", "OSError", "TypeError", "RuntimeError", "BlockingIOError", "IndexError",
@@ -399,6 +399,8 @@ class ExprMixin:
             return VFunc("seqmethod", attr, base)
         if isinstance(base, VStr):
             return VFunc("strmethod", attr, base)
+        if type(base).__name__ == "VBytes":
+            return VFunc("bytesmethod", attr, base)
         if isinstance(base, VOpaque):
             return VFunc("opaque", attr, base)
         if isinstance(base, VFunc) and base.kind == "class":
@@ -417,6 +419,8 @@ class ExprMixin:
                 return VFunc("repo", f"{relfile}::{cname}.{attr}")
         if isinstance(base, VFunc) and base.kind == "repo" and attr == "py_func":
             return base
+        if isinstance(base, VFunc) and base.kind == "model" and (base.ref + "." + attr) in self.models:
+            return VFunc("model", base.ref + "." + attr, None)  # e.g. np.logical_or.reduce
         raise OutOfSubset(f"line {line}: attribute {attr} of {base!r}")
 
     def ev_Subscript(self, node, st):
